@@ -32,6 +32,11 @@ FUNCTIONS = [
     ("mmWriteHint", "metadata_manager.py", "MetadataManager", "_write_hint_at_commit_point"),
     ("mmReadCurrentEtag", "metadata_manager.py", "MetadataManager", "_read_current_with_etag"),
     ("mmInitialize", "metadata_manager.py", "MetadataManager", "initialize_table"),
+    ("mmCurrentVersionInfo", "metadata_manager.py", "MetadataManager", "_current_version_info"),
+    ("mmRefresh", "metadata_manager.py", "MetadataManager", "refresh"),
+    ("gcLoadInflight", "garbage_collector.py", "GarbageCollector", "_load_inflight_protection"),
+    ("smDeleteSnapshot", "snapshot_manager.py", "SnapshotManager", "delete_snapshot"),
+    ("txRollback", "transaction.py", "Transaction", "_rollback"),
     ("gcCollect", "garbage_collector.py", "GarbageCollector", "collect"),
     ("gcPrefix", "garbage_collector.py", "GarbageCollector", "_gc_prefix"),
     ("localWriteFile", "storage_backend.py", "LocalStorageBackend", "write_file"),
